@@ -346,6 +346,12 @@ def accepted_by_docs(cls: str, kw: Dict[str, Any]) -> bool:
         return True
     if not set(kw["final_states"]) <= set(st):
         return False
+    # reserved names (fa.py `_validate_reserved_names`, pda.py `validate`): None marks "no state",
+    # the empty string marks a lambda transition / an empty stack
+    if cls in ("DFA", "NFA") and (None in st or "" in kw["input_symbols"]):
+        return False
+    if cls in ("DPDA", "NPDA") and "" in kw["stack_symbols"]:
+        return False
     if cls == "DFA":
         if not set(st) <= set(T):
             return False
@@ -453,6 +459,28 @@ def corruptions(cls: str, kw: Dict[str, Any]) -> Iterator[Tuple[str, str, Callab
                mk(lambda k: k.__setitem__("final_states", set(k["final_states"]) | {FOREIGN_STATE})))
         yield ("final_state_not_a_state", "InvalidStateError",
                mk(lambda k: k.__setitem__("final_states", {FOREIGN_STATE2})))
+
+    # --- reserved names (checked before everything else): the bare edit (which also leaves the
+    # new state without a row / the rows of a complete DFA without the new symbol — those checks
+    # come later), and the edit that keeps the definition consistent in every other respect
+    # (a state / symbol *renamed* to the reserved name everywhere)
+    if cls in ("DFA", "NFA"):
+        yield ("reserved_state_name_none", "InvalidStateError",
+               mk(lambda k: k.__setitem__("states", set(k["states"]) | {None})))
+        for q in st:
+            yield ("reserved_state_name_none", "InvalidStateError",
+                   mk(lambda k, q=q: rename_state(cls, k, q, None)))
+        yield ("reserved_input_symbol_empty", "InvalidSymbolError",
+               mk(lambda k: k.__setitem__("input_symbols", set(k["input_symbols"]) | {""})))
+        for a in sorted(kw["input_symbols"]):
+            yield ("reserved_input_symbol_empty", "InvalidSymbolError",
+                   mk(lambda k, a=a: rename_symbol(cls, k, a, "")))
+    if cls in ("DPDA", "NPDA"):
+        yield ("reserved_stack_symbol_empty", "InvalidSymbolError",
+               mk(lambda k: k.__setitem__("stack_symbols", set(k["stack_symbols"]) | {""})))
+        for g in sorted(kw["stack_symbols"]):
+            yield ("reserved_stack_symbol_empty", "InvalidSymbolError",
+                   mk(lambda k, g=g: rename_stack_symbol(cls, k, g, "")))
 
     if cls == "DFA":
         for q in st:
@@ -597,6 +625,57 @@ def corruptions(cls: str, kw: Dict[str, Any]) -> Iterator[Tuple[str, str, Callab
                 if n_t + delta >= 0:
                     yield ("bad_tape_count", "InconsistentTapesException",
                            mk(lambda k, delta=delta: k.__setitem__("n_tapes", k["n_tapes"] + delta)))
+
+
+def rename_state(cls, k, old, new):
+    """DFA / NFA: the state `old` is called `new` everywhere."""
+    r = lambda q: new if q == old else q  # noqa: E731
+    k["states"] = {r(q) for q in k["states"]}
+    k["initial_state"] = r(k["initial_state"])
+    k["final_states"] = {r(q) for q in k["final_states"]}
+    if cls == "DFA":
+        k["transitions"] = {r(q): {a: r(t) for a, t in row.items()} for q, row in k["transitions"].items()}
+    else:
+        k["transitions"] = {r(q): {a: {r(t) for t in ts} for a, ts in row.items()}
+                            for q, row in k["transitions"].items()}
+
+
+def rename_symbol(cls, k, old, new):
+    """DFA / NFA: the input symbol `old` is written `new` everywhere."""
+    r = lambda a: new if a == old else a  # noqa: E731
+    k["input_symbols"] = {r(a) for a in k["input_symbols"]}
+    out = {}
+    for q, row in k["transitions"].items():
+        nr = {}
+        for a, v in row.items():
+            if cls == "NFA" and r(a) in nr:
+                nr[r(a)] = set(nr[r(a)]) | set(v)  # the renamed symbol meets the lambda entry
+            else:
+                nr[r(a)] = v
+        out[q] = nr
+    k["transitions"] = out
+
+
+def rename_stack_symbol(cls, k, old, new):
+    """DPDA / NPDA: the stack symbol `old` is written `new` everywhere (stack alphabet, initial
+    stack symbol, the stack-symbol keys of the table, pushed strings / tuples)."""
+    r = lambda g: new if g == old else g  # noqa: E731
+
+    def rp(p):
+        return "".join(r(c) for c in p) if isinstance(p, str) else tuple(r(c) for c in p)
+
+    k["stack_symbols"] = {r(g) for g in k["stack_symbols"]}
+    k["initial_stack_symbol"] = r(k["initial_stack_symbol"])
+    out = {}
+    for q, row in k["transitions"].items():
+        nr = {}
+        for a, m in row.items():
+            if cls == "DPDA":
+                nr[a] = {r(g): (t, rp(p)) for g, (t, p) in m.items()}
+            else:
+                nr[a] = {r(g): {(t, rp(p)) for (t, p) in res} for g, res in m.items()}
+        out[q] = nr
+    k["transitions"] = out
 
 
 def _add_lambda(k, q, g, where):
